@@ -1,0 +1,45 @@
+//! Verification hooks (cargo feature `verif_hooks`, off by default).
+//!
+//! Read-only accessors and a work counter used by the replay / audit programs of the
+//! verification framework. Nothing here changes the behaviour of the crate.
+
+use std::cell::Cell;
+
+use daggy::Dag;
+
+use crate::{Edge, FnGraph, FnIdInner};
+
+thread_local! {
+    static RANK_CALC_POPS: Cell<usize> = const { Cell::new(0) };
+}
+
+/// Called once per work-queue pop in `RankCalc::calc`.
+pub(crate) fn rank_calc_pop() {
+    RANK_CALC_POPS.with(|c| c.set(c.get() + 1));
+}
+
+/// Resets the pop counter of `RankCalc::calc` for the current thread.
+pub fn rank_calc_pops_reset() {
+    RANK_CALC_POPS.with(|c| c.set(0));
+}
+
+/// Number of work-queue pops of `RankCalc::calc` on the current thread since the last reset.
+pub fn rank_calc_pops() -> usize {
+    RANK_CALC_POPS.with(|c| c.get())
+}
+
+/// Structure used to schedule forward runs.
+pub fn graph_structure<F>(fn_graph: &FnGraph<F>) -> &Dag<(), Edge, FnIdInner> {
+    &fn_graph.graph_structure
+}
+
+/// Structure used to schedule reverse runs.
+pub fn graph_structure_rev<F>(fn_graph: &FnGraph<F>) -> &Dag<(), Edge, FnIdInner> {
+    &fn_graph.graph_structure_rev
+}
+
+/// Incoming / outgoing edge counts per function.
+#[cfg(feature = "async")]
+pub fn edge_counts<F>(fn_graph: &FnGraph<F>) -> (&[usize], &[usize]) {
+    (fn_graph.edge_counts.incoming(), fn_graph.edge_counts.outgoing())
+}
